@@ -682,6 +682,11 @@ def parse_inst(line):
         pred = tk.next()[1]
         t = parse_type(tk); a = parse_value(tk, t); tk.expect(','); b = parse_value(tk, t)
         return Inst(res, 'icmp', pred=pred, ty=t, a=a, b=b)
+    if op == 'fcmp':
+        while tk.peek()[1] in ('fast', 'nnan', 'ninf', 'nsz', 'arcp', 'contract', 'afn', 'reassoc'): tk.next()
+        pred = tk.next()[1]
+        t = parse_type(tk); a = parse_value(tk, t); tk.expect(','); b = parse_value(tk, t)
+        return Inst(res, 'fcmp', pred=pred, ty=t, a=a, b=b)
     if op == 'select':
         ct = parse_type(tk); c = parse_value(tk, ct); tk.expect(',')
         t = parse_type(tk); a = parse_value(tk, t); tk.expect(',')
